@@ -59,8 +59,13 @@ def check(run):
     res = Interp(dom, run.lat).run(tick.node)
     run.paths += len(res)
     want = fs("self.tyme", "self.tock", "tock")
-    ok = bool(stores) and all(d == want for d, st in stores) and all(
-        isinstance(st, ast.AugAssign) and isinstance(st.op, ast.Add) for d, st in stores)
+    def adds(st):
+        # self.tyme += X   or   self.tyme = self.tyme + X  (either operand order)
+        if isinstance(st, ast.AugAssign):
+            return isinstance(st.op, ast.Add)
+        v = st.value if isinstance(st, ast.Assign) else None
+        return isinstance(v, ast.BinOp) and isinstance(v.op, ast.Add) and "self.tyme" in (dotted(v.left), dotted(v.right))
+    ok = bool(stores) and all(d == want for d, st in stores) and all(adds(st) for d, st in stores)
     run.ob("C03.R1", "%s:Tymist.tick:tyme+=tock" % tm, ok, run.site(tick),
            "" if ok else "Tymist.tick must add the given tock (default self.tock) to self.tyme; found %s" % [sorted(d) for d, s in stores])
     # enter
